@@ -81,6 +81,9 @@ def refusals(env, rep, m):
     rep.floor("C06.R4", "stage functions whose refusals were classified", n_fn, 5)
 
 
+from ..framework import wants
+
+
 def run(env, rep):
     rep.explanation = (
         "R1: the reader's typed reads per header format (stage functions analysed under format = F, in the order of the extracted "
@@ -91,7 +94,7 @@ def run(env, rep):
         "add the timestamp, and a type-3 header re-applies the delta only at the first chunk of a message; R4: the only inputs a stage "
         "of the reader refuses (returns Err for) are a compressed header on a chunk stream without a previous header and an announced "
         "message length smaller than the bytes already held for that message (strictly) - every other chunk, including an empty "
-        "message, is accepted.  Not decided: the decoding function over all legal encodings.")
+        "message, is accepted.  R5: a stage that suspends for lack of bytes leaves no observable effect (C15 R1), so a conformant stream decodes the same however it is fragmented.  Not decided: the decoding function over all legal encodings.")
     spec = chunk.load_spec()
     m = chunk.ChunkModel(env, rep, "C06.anchors")
     if not m.ok:
@@ -245,3 +248,8 @@ def run(env, rep):
             and all(c and chunk.interval_from_decisions(c, "current_payload_data.len")[0] >= 1 for c in skipped)
     rep.check("C06.R3", "type3-delta-first-chunk-only", ok3, "a type-3 header adds the previous delta only when no payload of the message has been received yet",
               "the type-3 timestamp rule is not guarded by 'first chunk of the message' (payload received so far == 0): %d paths" % n3, m.b["get_next"].span)
+    # ------------------------------------------------------------------ R5: a foreign stream may be split anywhere
+    from ..framework import PrefixReport
+    from . import C15
+    if wants(rep, "C06.R5"):
+        C15.run(env, PrefixReport(rep, "C15.", "C06.R5.", only=("C15.R1",)))
